@@ -712,7 +712,7 @@ def run_three(prog: dict, byhand_text: str, scratch: Path, tag: str) -> dict:
     write_tree(r1, prog['source'])
     write_tree(r2, byhand_text)
     res = {'plain': run_one(r1, 'plain', {}), 'hook': run_one(r1, 'hook', prog['conf']), 'hand': run_one(r2, 'plain', {})}
-    if prog.get('id', 0) % 2 == 0 or prog.get('rehook'):
+    if prog.get('id', 0) % 3 == 0 or prog.get('rehook'):
         # the same module imported a SECOND time in one process, under another hook: the first import (a decoy
         # configuration downgrading violations to warnings) must leave no trace in the second
         res['rehook'] = run_one(r1, 'rehook', prog['conf'])
